@@ -351,6 +351,9 @@ class Exec(object):
 
     def cmp(self, st, op, a, b):
         """outcomes of a single comparison"""
+        r = self.hook('cmp', st, op, a, b)
+        if r is not None:
+            return r
         if isinstance(op, ast.Is): return [(st, ('val', B(a == b)))]
         if isinstance(op, ast.IsNot): return [(st, ('val', B(a != b)))]
         if isinstance(op, ast.Eq): return [(st, ('val', B(self.eq(st, a, b))))]
@@ -617,7 +620,10 @@ class Exec(object):
                 sq = sR.seq(o); idx = Val.iv(k); ln = z3.Length(sq); j = z3.If(idx < 0, ln + idx, idx)
                 sI, sO = self.fork(sR, z3.And(Val.is_i(k), j >= 0, j < ln))
                 if sO is not None: outs.append(self.raise_(sO, 'IndexError'))
-                if sI is not None: outs.append((sI, ('val', sq[j])))
+                if sI is not None:
+                    if self.spine(sI, o) is None:
+                        sI.assume(z3.Contains(sq, z3.Unit(sq[j])))      # instance of: an element at a valid index is a member (helps the sequence solver)
+                    outs.append((sI, ('val', sq[j])))
             elif self.is_kind(sR, o, 'dict'):
                 sK, sM = self.fork(sR, sR.dhas(o, k))
                 if sM is not None:
